@@ -62,7 +62,21 @@ impl World {
                 }))
                 .map(|result| Built { codes: vec![], result })
             }
-            World::Bytes(b) => crate::catch(std::panic::AssertUnwindSafe(|| Ontology::from_bytes(b))).map(|result| Built { codes: vec![], result }),
+            World::Bytes(b) => {
+                if b.len() % 3 == 0 {
+                    // the same bytes through Ontology::from_binary (a file on disk)
+                    static COUNTER: std::sync::atomic::AtomicU64 = std::sync::atomic::AtomicU64::new(0);
+                    let k = COUNTER.fetch_add(1, std::sync::atomic::Ordering::SeqCst);
+                    let path = std::env::temp_dir().join(format!("hpo-verif-bin-{}-{}.hpo", std::process::id(), k));
+                    std::fs::write(&path, b).expect("write binary file");
+                    let p = path.to_str().expect("utf-8 path").to_string();
+                    let r = crate::catch(std::panic::AssertUnwindSafe(|| Ontology::from_binary(&p)));
+                    let _ = std::fs::remove_file(&path);
+                    r.map(|result| Built { codes: vec![], result })
+                } else {
+                    crate::catch(std::panic::AssertUnwindSafe(|| Ontology::from_bytes(b))).map(|result| Built { codes: vec![], result })
+                }
+            }
             World::Jax { transitive, obo, genes, hpoa } => {
                 static COUNTER: std::sync::atomic::AtomicU64 = std::sync::atomic::AtomicU64::new(0);
                 let k = COUNTER.fetch_add(1, std::sync::atomic::Ordering::SeqCst);
